@@ -971,6 +971,15 @@ func (e *Engine) timeStampFilterTarFile(start, end time.Time) func(f os.FileInfo
 		stun := start.UnixNano()
 		eun := end.UnixNano()
 
+		// The TSM file is 100% inside the range: it is written as a whole, and
+		// must not be written a second time as a filtered file of the same name.
+		if min >= stun && max <= eun {
+			if err := r.Close(); err != nil {
+				return err
+			}
+			return intar.StreamFile(fi, shardRelativePath, fullPath, tw)
+		}
+
 		// We overlap time ranges, we need to filter the file
 		if min >= stun && min <= eun && max > eun || // overlap to the right
 			max >= stun && max <= eun && min < stun || // overlap to the left
